@@ -90,7 +90,7 @@ std::string job_prog(const Args& a) {
   const size_t maxTri = (size_t)a.u("maxtri", 60000);
   const bool wantFp = a.i("fp", 1);
   JArr steps, viol, finals;
-  uint64_t nObjects = 0, nTris = 0, nDerivedSuppressed = 0;
+  uint64_t nObjects = 0, nTris = 0, nDerivedSuppressed = 0, nC01PreconditionSkipped = 0;
   // Root-cause reporting: an object that violated C01/C08 taints everything
   // derived from it; violations of tainted objects are counted, not reported.
   std::set<uint64_t> tainted;
@@ -173,7 +173,12 @@ std::string job_prog(const Args& a) {
                 tainted.insert(e.idM[p.idx]);
               }
             }
-            if (c08 && m.Status() == Manifold::Error::NoError && m.NumTri() > 0) {
+            // C08 is about Manifolds, i.e. objects that satisfy C01; one that does not (C01 reports it)
+            // is outside its premise.
+            if (c08 && m.Status() == Manifold::Error::NoError && m.NumTri() > 0 && !check_manifold_invariant(m, g).empty()) {
+              nC01PreconditionSkipped++;
+              tainted.insert(e.idM[p.idx]);
+            } else if (c08 && m.Status() == Manifold::Error::NoError && m.NumTri() > 0) {
               std::string cl = c08_check(m, g, a);
               if (!cl.empty()) {
                 if (derivedFromTainted)
@@ -247,7 +252,7 @@ std::string job_prog(const Args& a) {
   for (auto& kv : opCount) oc.i64(kv.first, kv.second);
   JObj j;
   j.raw("steps", steps.done()).raw("final", finals.done()).raw("viol", viol.done());
-  j.u64("objects", nObjects).u64("tris", nTris).u64("derived_suppressed", nDerivedSuppressed).raw("ops", oc.done());
+  j.u64("objects", nObjects).u64("tris", nTris).u64("derived_suppressed", nDerivedSuppressed).u64("c08_skipped_not_manifold", nC01PreconditionSkipped).raw("ops", oc.done());
   j.raw("sim", outcome_json(out));
   return j.done();
 }
